@@ -84,8 +84,9 @@ def setup(ctx):
     if not where.startswith(_repo_root() + os.sep):
         ctx.harness_error('periodictable imported from %s, not under %s' % (where, _repo_root()))
         return
-    X.CONFIG['xray_elements'] = None if ctx.thorough() else set(X.XRAY_QUICK)
     st, canon = X.run_forked(X.canonical)
+    X.CONFIG['xray_elements'] = None if ctx.thorough() else set(X.XRAY_QUICK)
+    X.CONFIG['force_all'] = ctx.thorough()
     if st != 'ok':
         ctx.harness_error('canonical run failed: %s' % (canon,))
         return
@@ -220,6 +221,8 @@ def check_history(ctx, case):
             ctx.harness_error('history %r: %s %s' % (h, st, text[-1500:]))
         return
     _account(ctx, r)
+    for text in r.get('harness', ()):
+        ctx.harness_error(text)
     ctx.count('histories')
     ctx.count('histories.%s' % case.get('origin', 'replay').split(':')[0])
     ctx.count('history_events', len(h))
@@ -270,7 +273,8 @@ def check_history(ctx, case):
     fresh_sigs = None
     if need_fresh:
         stf, rf = X.run_fresh({'mode': 'play', 'history': h, 'canon': _state['canon_path'],
-                               'xray_elements': sorted(X.CONFIG['xray_elements']) if X.CONFIG['xray_elements'] else None})
+                               'xray_elements': sorted(X.CONFIG['xray_elements']) if X.CONFIG['xray_elements'] else None,
+                               'force_all': X.CONFIG['force_all']})
         ctx.count('fresh_replays')
         if stf != 'ok':
             ctx.harness_error('fresh-interpreter replay of %r failed: %s' % (h, str(rf)[-800:]))
